@@ -37,7 +37,10 @@ def random_scenario(rng: random.Random) -> dict:
             for t in range(1, T + 1):
                 if rng.random() < 0.5:
                     acts[str(t)] = [{"pair": rng.choice(pairs), "op": rng.choice(["buy", "sell"]), "amount": rng.randint(1, 4),
-                                     "type": rng.choice(["market", "market", "limit"])} for _ in range(rng.randint(1, 2))]
+                                     "type": rng.choice(["market", "market", "limit"]),
+                                     # the strategy looks at the account before it acts (none of these calls may suspend)
+                                     "read": rng.random() < 0.5, "ab": rng.random() < 0.5, "ar": rng.random() < 0.5}
+                                    for _ in range(rng.randint(1, 2))]
             handlers.append({"id": hid, "pair": p, "actions": acts, "yields": 0, "via_signal": rng.random() < 0.3})
     order_event_orders = rng.random() < 0.4
     # the order in which the application wires things up
@@ -45,12 +48,33 @@ def random_scenario(rng: random.Random) -> dict:
     rng.shuffle(wiring)
     return {"pairs": pairs, "bars": bars, "handlers": handlers, "wiring": wiring, "order_event_orders": order_event_orders,
             "usd": rng.choice([30, 100, 400, 100000]), "base": rng.choice([0, 3, 1000]), "suspending": False,
-            "reindex_every": rng.choice([0, 2, 3])}
+            "reindex_every": rng.choice([0, 2, 3]),
+            # margin lending with time-based interest: auto-borrow / auto-repay flags of the actions take effect
+            "lending": rng.random() < 0.4}
+
+
+def directed_scenarios() -> list:
+    """Histories random generation reaches rarely: equally sized loans taken at different times, of which an auto-repay
+    order can only repay one (which one must not depend on anything that varies between runs)."""
+    out = []
+    for amount, nloans, gap in ((2, 2, 1), (3, 3, 1), (1, 2, 2)):
+        acts = {}
+        t = 1
+        for _ in range(nloans):
+            acts[str(t)] = [{"pair": "P0", "op": "sell", "amount": amount, "type": "market", "read": False, "ab": True, "ar": False}]
+            t += gap
+        acts[str(t + 1)] = [{"pair": "P0", "op": "buy", "amount": amount, "type": "market", "read": False, "ab": False, "ar": True}]
+        T = t + 4
+        out.append({"pairs": ["P0"], "bars": [[{"t": k, "pair": "P0", "price": 10 + k} for k in range(1, T + 1)]],
+                    "handlers": [{"id": 1, "pair": "P0", "actions": acts, "yields": 0, "via_signal": False}],
+                    "wiring": [("source", 0), ("handler", 1), ("signals", 0)], "order_event_orders": False,
+                    "usd": 1000, "base": 0, "suspending": False, "reindex_every": 0, "lending": True})
+    return out
 
 
 async def run_async(S: dict, maxc: int) -> dict:
     import basana as bs
-    from basana.backtesting import exchange as bex, liquidity
+    from basana.backtesting import exchange as bex, lending, liquidity
     from basana.core import bar as bsbar, event as bsevent
     from basana.core.enums import OrderOperation
     from basana.core.pair import Pair
@@ -60,7 +84,12 @@ async def run_async(S: dict, maxc: int) -> dict:
     init = {"USD": Decimal(S["usd"])}
     for p in S["pairs"]:
         init[p] = Decimal(S["base"])
-    ex = bex.Exchange(d, init, liquidity_strategy_factory=liquidity.InfiniteLiquidity)
+    kw = {}
+    if S.get("lending"):
+        kw["lending_strategy"] = lending.MarginLoans("USD", default_conditions=lending.MarginLoanConditions(
+            interest_symbol="USD", interest_percentage=Decimal(7), interest_period=datetime.timedelta(hours=3),
+            min_interest=Decimal(0), margin_requirement=Decimal("0.2")))
+    ex = bex.Exchange(d, init, liquidity_strategy_factory=liquidity.InfiniteLiquidity, **kw)
     for sym in init:
         ex.set_symbol_precision(sym, 2 if sym == "USD" else 0)
     if S.get("reindex_every") and hasattr(ex._order_mgr._orders, "_reindex_every"):
@@ -82,12 +111,29 @@ async def run_async(S: dict, maxc: int) -> dict:
     async def place(key, a):
         op = OrderOperation.BUY if a["op"] == "buy" else OrderOperation.SELL
         at = tick(d.now())
+        flags = dict(auto_borrow=bool(a.get("ab")), auto_repay=bool(a.get("ar"))) if S.get("lending") else {}
+        amount = Decimal(a["amount"])
         try:
+            if a.get("read"):
+                # size the order from what the account holds right now
+                bals = await ex.get_balances()
+                usd = await ex.get_balance("USD")
+                await ex.get_open_orders(pair=pair_obj[a["pair"]])
+                await ex.get_orders(is_open=False)
+                try:
+                    bid, ask = await ex.get_bid_ask(pair_obj[a["pair"]])
+                    if a["op"] == "buy" and not flags.get("auto_borrow"):
+                        amount = max(Decimal(1), min(amount, (usd.available / ask).to_integral_value(rounding="ROUND_FLOOR")))
+                    elif a["op"] == "sell" and not flags.get("auto_borrow"):
+                        have = bals[a["pair"]].available if a["pair"] in bals else Decimal(0)
+                        amount = max(Decimal(1), min(amount, have))
+                except Exception:  # noqa: BLE001 - no price yet
+                    pass
             if a["type"] == "market":
-                r = await ex.create_market_order(op, pair_obj[a["pair"]], Decimal(a["amount"]))
+                r = await ex.create_market_order(op, pair_obj[a["pair"]], amount, **flags)
             else:
                 bid, ask = await ex.get_bid_ask(pair_obj[a["pair"]])
-                r = await ex.create_limit_order(op, pair_obj[a["pair"]], Decimal(a["amount"]), ask if a["op"] == "buy" else bid)
+                r = await ex.create_limit_order(op, pair_obj[a["pair"]], amount, ask if a["op"] == "buy" else bid, **flags)
             orders[r.id] = {"key": key, "at": at, "fills": [], "filled": Decimal(0), "quote": Decimal(0)}
         except Exception as e:  # noqa: BLE001
             orders["rej-" + key] = {"key": key + ":rejected:" + type(e).__name__, "at": at, "fills": [], "filled": Decimal(0), "quote": Decimal(0)}
